@@ -553,7 +553,27 @@ fn mutate_doc(rng: &mut Rng, doc: &[u8]) -> Vec<u8> {
 
 fn mutate_doc_inner(rng: &mut Rng, doc: &[u8]) -> Vec<u8> {
     let mut d = doc.to_vec();
-    match rng.below(9) {
+    match rng.below(11) {
+        9 | 10 => {
+            // an element nested inside an element of the same kind, the outer one's required children restated behind
+            // the inner close tag (balanced and well-formed XML, an unusual shape for the event loop)
+            let s = String::from_utf8_lossy(doc).to_string();
+            let (open, close, tail) = if rng.bool() {
+                ("<fx:PDU ", "</fx:PDU>", "<fx:BYTE-LENGTH>1</fx:BYTE-LENGTH>")
+            } else {
+                ("<fx:FRAME ", "</fx:FRAME>", "<ho:SHORT-NAME>outer</ho:SHORT-NAME><fx:BYTE-LENGTH>1</fx:BYTE-LENGTH>")
+            };
+            if let Some(a) = s.find(open) {
+                if let Some(b) = s[a..].find(close) {
+                    let whole = &s[a..a + b + close.len()];
+                    // insert a copy of the whole element right behind the outer element's start tag
+                    if let Some(gt) = whole.find('>') {
+                        let nested = format!("{}{}{}{}", &whole[..gt + 1], whole, tail, &whole[gt + 1..]);
+                        d = [s[..a].as_bytes(), nested.as_bytes(), s[a + b + close.len()..].as_bytes()].concat();
+                    }
+                }
+            }
+        }
         6 | 7 => {
             // a number that is not one: multi-byte text where BYTE-LENGTH / SEQUENCE-NUMBER want digits (refusal with a
             // position in the error message)
